@@ -504,9 +504,21 @@ impl Template {
                 (MaybeOpen | Key, c) if c.is_ascii_whitespace() => {
                     // If we find whitespace where the variable key is supposed to go,
                     // backtrack and act as if this was a literal.
-                    buf.push(c);
-                    let mut new = String::from("{");
-                    new.push_str(&buf);
+                    let mut new = match state {
+                        // `buf` still holds the literal text preceding the brace
+                        MaybeOpen => {
+                            let mut new = mem::take(&mut buf);
+                            new.push('{');
+                            new
+                        }
+                        // `buf` holds the partial key following the brace
+                        _ => {
+                            let mut new = String::from("{");
+                            new.push_str(&buf);
+                            new
+                        }
+                    };
+                    new.push(c);
                     buf.clear();
                     parts.push(TemplatePart::Literal(TabExpandedString::new(
                         new.into(),
